@@ -1,6 +1,414 @@
-//! threadsim stub (filled in later)
+//! threadsim: the real nREPL server threads under the seeded shuttle scheduler.
+//!
+//! Compiled as a child module of /repo/src/nrepl.rs (hook H4), so `super::`
+//! reaches `Connection`, `handle_message`, `sigint_watchdog`, `read_message`,
+//! `write_message` ...  Through hook H4 the server's `thread` and `mpsc` are
+//! the shim types of /verif/sim/src/shim.rs, so every spawn, send, receive,
+//! join, sleep and timer expiry is a decision of the seeded scheduler, and hook
+//! H2 makes every evaluation step (where the evaluator reads the shared
+//! interrupt flag) a scheduling point.
+//!
+//! Real code: Connection, handle_message, dispatch_to_session, session_worker,
+//! handle_eval / eval_code_in_namespace, spawn_output_flusher,
+//! flush_output_buffer, sigint_watchdog, read_message, write_message, the
+//! whole evaluator.  Re-enacted here (stubs): the accept loop, the 15-line
+//! read/dispatch/shutdown loop of serve_connection and the 3-line loop of
+//! writer_thread, because their signatures name TcpStream.
+//!
+//! Generic executor: one scenario (JSON) per stdin line, one result per line.
+
 use super::*;
-pub(crate) fn on_step(_env: &mut Env, _session: &Session, _st: &crate::eval::ExpressionState, _e: &Rc<crate::parser::ast::Expression>) {}
-pub(crate) fn on_worker_reset(_flag: &Arc<AtomicBool>) {}
-pub(crate) fn on_watchdog_store(_flag: &Arc<AtomicBool>) {}
-pub(crate) fn serve(_args: &[String]) -> i32 { 2 }
+use crate::verif_sim::shim;
+use crate::verif_sim::util;
+use std::io::{BufRead, Write as IoWrite};
+use std::sync::atomic::{AtomicU64, AtomicUsize};
+
+static EVENTS: Mutex<Vec<serde_json::Value>> = Mutex::new(Vec::new());
+static EVENT_NO: AtomicU64 = AtomicU64::new(0);
+static USE_SWITCH: AtomicBool = AtomicBool::new(false);
+static STEP_BUDGET: AtomicUsize = AtomicUsize::new(100_000);
+static CODEC_INTERRUPTED: AtomicU64 = AtomicU64::new(0);
+static CODEC_SHORT_WRITES: AtomicU64 = AtomicU64::new(0);
+
+fn log_event(mut v: serde_json::Value) {
+    let n = EVENT_NO.fetch_add(1, Ordering::SeqCst) + 1;
+    v["n"] = serde_json::json!(n);
+    EVENTS.lock().unwrap().push(v);
+}
+
+fn thread_name() -> String {
+    shuttle::thread::current()
+        .name()
+        .map(|s| s.to_owned())
+        .unwrap_or_else(|| "main".to_owned())
+}
+
+fn sched_point() {
+    if USE_SWITCH.load(Ordering::Relaxed) {
+        shuttle::thread::sleep(Duration::ZERO);
+    } else {
+        shuttle::thread::yield_now();
+    }
+}
+
+/// Hook H2 in threadsim mode: a scheduling point, then the record of what
+/// the evaluator is about to read.
+pub(crate) fn on_step(
+    env: &mut Env,
+    session: &Session,
+    _st: &crate::eval::ExpressionState,
+    _e: &Rc<crate::parser::ast::Expression>,
+) {
+    sched_point();
+    // No scheduling point separates this record from the evaluator's own load.
+    let flag = session.interrupted.load(Ordering::SeqCst);
+    log_event(serde_json::json!({
+        "k": "C", "thread": thread_name(), "tick": env.ticks, "flag": flag,
+        "ptr": format!("{:p}", Arc::as_ptr(&session.interrupted)),
+    }));
+    if env.ticks > STEP_BUDGET.load(Ordering::Relaxed) {
+        // Harness safety net only: generated programs are finite.
+        log_event(serde_json::json!({"k": "BUDGET", "thread": thread_name()}));
+        session.interrupted.store(true, Ordering::SeqCst);
+    }
+}
+
+pub(crate) fn on_worker_reset(flag: &Arc<AtomicBool>) {
+    // Immediately after the worker's `interrupted.store(false)`; no scheduling
+    // point in between.
+    log_event(serde_json::json!({
+        "k": "R", "thread": thread_name(), "ptr": format!("{:p}", Arc::as_ptr(flag)),
+    }));
+}
+
+pub(crate) fn on_watchdog_store(flag: &Arc<AtomicBool>) {
+    log_event(serde_json::json!({
+        "k": "I", "src": "watchdog", "thread": thread_name(), "ptr": format!("{:p}", Arc::as_ptr(flag)),
+    }));
+}
+
+// ---------------------------------------------------------------------
+// fault-injecting transport
+// ---------------------------------------------------------------------
+
+/// The client->server byte stream.  `read_message` reads one byte at a time;
+/// each read may first fail with `Interrupted` (decided by shuttle::rand, so
+/// part of the replayable schedule), and the stream may end in the middle of a
+/// message (client crash).
+struct FaultyReader {
+    data: std::collections::VecDeque<u8>,
+    interrupted_permille: u32,
+}
+
+impl Read for FaultyReader {
+    fn read(&mut self, buf: &mut [u8]) -> io::Result<usize> {
+        use shuttle::rand::Rng;
+        if self.interrupted_permille > 0
+            && shuttle::rand::thread_rng().gen_range(0u32..1000) < self.interrupted_permille
+        {
+            CODEC_INTERRUPTED.fetch_add(1, Ordering::Relaxed);
+            return Err(io::Error::new(io::ErrorKind::Interrupted, "simulated EINTR"));
+        }
+        if buf.is_empty() {
+            return Ok(0);
+        }
+        match self.data.pop_front() {
+            Some(b) => {
+                buf[0] = b;
+                Ok(1)
+            }
+            None => Ok(0),
+        }
+    }
+}
+
+/// The server->client byte stream: short writes and `Interrupted`.
+struct FaultyWriter {
+    out: Vec<u8>,
+    short_permille: u32,
+    interrupted_permille: u32,
+}
+
+impl std::io::Write for FaultyWriter {
+    fn write(&mut self, buf: &[u8]) -> io::Result<usize> {
+        use shuttle::rand::Rng;
+        let mut rng = shuttle::rand::thread_rng();
+        if self.interrupted_permille > 0 && rng.gen_range(0u32..1000) < self.interrupted_permille {
+            CODEC_INTERRUPTED.fetch_add(1, Ordering::Relaxed);
+            return Err(io::Error::new(io::ErrorKind::Interrupted, "simulated EINTR"));
+        }
+        let mut n = buf.len();
+        if n > 1 && self.short_permille > 0 && rng.gen_range(0u32..1000) < self.short_permille {
+            n = rng.gen_range(1..n);
+            CODEC_SHORT_WRITES.fetch_add(1, Ordering::Relaxed);
+        }
+        self.out.extend_from_slice(&buf[..n]);
+        Ok(n)
+    }
+    fn flush(&mut self) -> io::Result<()> {
+        Ok(())
+    }
+}
+
+// ---------------------------------------------------------------------
+// the scenario
+// ---------------------------------------------------------------------
+
+fn scenario(sc: &serde_json::Value) {
+    let codec = &sc["codec"];
+    let rd_int = codec["read_interrupted_permille"].as_u64().unwrap_or(0) as u32;
+    let wr_int = codec["write_interrupted_permille"].as_u64().unwrap_or(0) as u32;
+    let wr_short = codec["write_short_permille"].as_u64().unwrap_or(0) as u32;
+    let eof_mid = codec["eof_mid_message"].as_bool().unwrap_or(false);
+    let drop_rx_after = sc["drop_receiver_after"].as_u64();
+    let want_watchdog = sc["watchdog"].as_bool().unwrap_or(false);
+
+    // --- what serve_connection sets up ---
+    let (response_tx, response_rx) = mpsc::channel::<Value>();
+
+    // writer thread (re-enactment of writer_thread's loop over the channel)
+    let writer_handle = thread::Builder::new()
+        .name("nrepl-writer".to_owned())
+        .spawn(move || {
+            let mut w = FaultyWriter {
+                out: vec![],
+                short_permille: wr_short,
+                interrupted_permille: wr_int,
+            };
+            let mut decoded_upto = 0usize;
+            let mut n_msgs = 0u64;
+            while let Ok(value) = response_rx.recv() {
+                if let Err(e) = write_message(&mut w, &value) {
+                    log_event(serde_json::json!({"k": "WRITE-ERROR", "err": e.to_string()}));
+                    return;
+                }
+                // the client decodes whatever complete messages have arrived
+                loop {
+                    let mut cur = std::io::Cursor::new(&w.out[decoded_upto..]);
+                    match read_message(&mut cur) {
+                        Ok(Some(v)) => {
+                            decoded_upto += cur.position() as usize;
+                            log_event(serde_json::json!({"k": "WIRE", "msg": bencode_to_json(&v)}));
+                        }
+                        _ => break,
+                    }
+                }
+                n_msgs += 1;
+                if let Some(lim) = drop_rx_after {
+                    if n_msgs >= lim {
+                        // the writer dies (socket error): the receiver is dropped
+                        log_event(serde_json::json!({"k": "WRITER-DIED"}));
+                        return;
+                    }
+                }
+            }
+            if decoded_upto != w.out.len() {
+                log_event(serde_json::json!({"k": "WIRE-TRAILING-BYTES", "n": w.out.len() - decoded_upto}));
+            }
+        })
+        .expect("spawn writer");
+
+    let mut conn = Connection::new(response_tx);
+
+    let global_interrupted = Arc::new(AtomicBool::new(false));
+    if want_watchdog {
+        let watchdog_flags = Arc::downgrade(&conn.interrupt_flags);
+        let g = Arc::clone(&global_interrupted);
+        thread::Builder::new()
+            .name("nrepl-sigint-watchdog".to_owned())
+            .spawn(move || sigint_watchdog(g, watchdog_flags))
+            .expect("spawn watchdog");
+    }
+
+    // --- the read/dispatch loop of serve_connection, fed by the simulated client ---
+    let mut reader = FaultyReader {
+        data: Default::default(),
+        interrupted_permille: rd_int,
+    };
+    let empty = vec![];
+    let ops = sc["ops"].as_array().unwrap_or(&empty);
+    let n_ops = ops.len();
+    'ops: for (oi, op) in ops.iter().enumerate() {
+        for _ in 0..op["yields"].as_u64().unwrap_or(0) {
+            sched_point();
+        }
+        match op["op"].as_str().unwrap_or("") {
+            "msg" => {
+                let Value::Dict(d) = json_to_bencode(op["fields"].clone()) else {
+                    continue;
+                };
+                let mut bytes: Vec<u8> = vec![];
+                write_message(&mut bytes, &Value::Dict(d)).expect("encode request");
+                if eof_mid && oi + 1 == n_ops && bytes.len() > 2 {
+                    // client crash in the middle of its last message
+                    bytes.truncate(bytes.len() / 2);
+                }
+                reader.data.extend(bytes);
+                let request = match read_message(&mut reader) {
+                    Ok(Some(Value::Dict(d))) => d,
+                    Ok(Some(_)) => continue,
+                    Ok(None) => break 'ops,
+                    Err(e) => {
+                        log_event(serde_json::json!({"k": "READ-ERROR", "err": e.to_string()}));
+                        break 'ops;
+                    }
+                };
+                // (only a request that arrived completely counts as delivered)
+                log_event(serde_json::json!({"k": "REQ", "op_index": oi, "fields": op["fields"].clone()}));
+                // Flag-write events of calls the simulator itself makes are logged
+                // here: no scheduling point separates the log from the store.
+                let opname = dict_get(&request, "op").and_then(as_str).unwrap_or("");
+                if opname == "interrupt" || opname == "close" {
+                    if let Some(s) = dict_get(&request, "session").and_then(as_str) {
+                        if let Some(st) = conn.sessions.get(s) {
+                            log_event(serde_json::json!({
+                                "k": "I", "src": opname, "session": s,
+                                "ptr": format!("{:p}", Arc::as_ptr(&st.interrupted)),
+                            }));
+                        }
+                    }
+                }
+                handle_message(&mut conn, &request);
+                // registry: session id -> flag address
+                for (id, st) in conn.sessions.iter() {
+                    log_event(serde_json::json!({
+                        "k": "SESSION", "session": id, "ptr": format!("{:p}", Arc::as_ptr(&st.interrupted)),
+                    }));
+                }
+            }
+            "sigint" => {
+                log_event(serde_json::json!({"k": "SIGINT"}));
+                global_interrupted.store(true, Ordering::SeqCst);
+            }
+            "yield" => {}
+            "disconnect" => break 'ops,
+            _ => {}
+        }
+    }
+
+    // --- the shutdown sequence of serve_connection ---
+    let mut ids: Vec<&String> = conn.sessions.keys().collect();
+    ids.sort();
+    for id in ids {
+        let s = &conn.sessions[id];
+        log_event(serde_json::json!({
+            "k": "I", "src": "disconnect", "session": id,
+            "ptr": format!("{:p}", Arc::as_ptr(&s.interrupted)),
+        }));
+        s.interrupted.store(true, Ordering::SeqCst);
+    }
+    log_event(serde_json::json!({"k": "CONN-DROPPED"}));
+    drop(conn);
+    let _ = writer_handle.join();
+    log_event(serde_json::json!({"k": "WRITER-JOINED"}));
+}
+
+fn run_one(sc: serde_json::Value) -> serde_json::Value {
+    use shuttle::scheduler::{PctScheduler, RandomScheduler};
+    use shuttle::{Config, FailurePersistence, MaxSteps, Runner};
+
+    EVENTS.lock().unwrap().clear();
+    EVENT_NO.store(0, Ordering::SeqCst);
+    shim::TIMER_FIRED.store(0, Ordering::SeqCst);
+    shim::SLEEPS.store(0, Ordering::SeqCst);
+    shim::SPAWNS.store(0, Ordering::SeqCst);
+    shim::VIRTUAL_NANOS.store(0, Ordering::SeqCst);
+    CODEC_INTERRUPTED.store(0, Ordering::SeqCst);
+    CODEC_SHORT_WRITES.store(0, Ordering::SeqCst);
+    shim::TIMER_FIRE_PERMILLE.store(
+        sc["timer_permille"].as_u64().unwrap_or(300) as usize,
+        Ordering::SeqCst,
+    );
+    STEP_BUDGET.store(
+        sc["step_budget"].as_u64().unwrap_or(100_000) as usize,
+        Ordering::SeqCst,
+    );
+
+    let mut cfg = Config::new();
+    cfg.stack_size = 8 * 1024 * 1024;
+    cfg.max_steps = MaxSteps::FailAfter(sc["max_steps"].as_u64().unwrap_or(3_000_000) as usize);
+    cfg.failure_persistence = FailurePersistence::None;
+    cfg.silence_warnings = true;
+
+    let seed = sc["sched"]["seed"].as_u64().unwrap_or(1);
+    let kind = sc["sched"]["kind"].as_str().unwrap_or("random").to_owned();
+    USE_SWITCH.store(kind == "pct", Ordering::SeqCst);
+    let sc_arc = Arc::new(sc.clone());
+
+    let res = std::panic::catch_unwind(std::panic::AssertUnwindSafe(|| {
+        let sc2 = Arc::clone(&sc_arc);
+        if kind == "pct" {
+            let depth = sc["sched"]["depth"].as_u64().unwrap_or(3) as usize;
+            Runner::new(PctScheduler::new_from_seed(seed, depth, 1), cfg)
+                .run(move || scenario(&sc2));
+        } else {
+            Runner::new(RandomScheduler::new_from_seed(seed, 1), cfg).run(move || scenario(&sc2));
+        }
+    }));
+    let outcome = match res {
+        Ok(()) => "ok".to_owned(),
+        Err(p) => {
+            let msg = if let Some(s) = p.downcast_ref::<&str>() {
+                (*s).to_owned()
+            } else if let Some(s) = p.downcast_ref::<String>() {
+                s.clone()
+            } else {
+                util::take_last_panic().unwrap_or_else(|| "panic".to_owned())
+            };
+            let first = util::take_last_panic();
+            format!("panic: {} || first: {}", msg, first.unwrap_or_default())
+        }
+    };
+    let events = std::mem::take(&mut *EVENTS.lock().unwrap());
+    serde_json::json!({
+        "id": sc["id"].clone(),
+        "outcome": outcome,
+        "events": events,
+        "timers_fired": shim::TIMER_FIRED.load(Ordering::SeqCst),
+        "sleeps": shim::SLEEPS.load(Ordering::SeqCst),
+        "spawns": shim::SPAWNS.load(Ordering::SeqCst),
+        "virtual_ms": shim::VIRTUAL_NANOS.load(Ordering::SeqCst) / 1_000_000,
+        "codec_interrupted": CODEC_INTERRUPTED.load(Ordering::SeqCst),
+        "codec_short_writes": CODEC_SHORT_WRITES.load(Ordering::SeqCst),
+    })
+}
+
+pub(crate) fn serve(_args: &[String]) -> i32 {
+    // Keep the FIRST panic message of an iteration (shuttle re-panics with its own).
+    std::panic::set_hook(Box::new(|info| {
+        let msg = if let Some(s) = info.payload().downcast_ref::<&str>() {
+            (*s).to_owned()
+        } else if let Some(s) = info.payload().downcast_ref::<String>() {
+            s.clone()
+        } else {
+            "<non-string panic payload>".to_owned()
+        };
+        let loc = info
+            .location()
+            .map(|l| format!("{}:{}", l.file(), l.line()))
+            .unwrap_or_default();
+        util::LAST_PANIC.with(|p| {
+            let mut p = p.borrow_mut();
+            if p.is_none() {
+                *p = Some(format!("{msg} @ {loc}"));
+            }
+        });
+    }));
+    let stdin = std::io::stdin();
+    let stdout = std::io::stdout();
+    for line in stdin.lock().lines() {
+        let Ok(line) = line else { break };
+        if line.trim().is_empty() {
+            continue;
+        }
+        let _ = util::take_last_panic();
+        let res = match serde_json::from_str::<serde_json::Value>(&line) {
+            Ok(sc) => run_one(sc),
+            Err(e) => serde_json::json!({"harness_error": e.to_string()}),
+        };
+        let mut o = stdout.lock();
+        let _ = writeln!(o, "\n@@VERIF-RESULT@@{}", res);
+        let _ = o.flush();
+    }
+    0
+}
